@@ -136,14 +136,19 @@ def pvStr (ms : List Move) : String := ",".intercalate (ms.map mvStr)
 
 /-- the iteration sequence of `VerifSearch` (hdrv `search`): startAlphaBeta for d = 1..maxDepth with the
     previous best line as ordering hint, fresh killer table, no clock, no stop -/
-def searchIters (lazy : Bool) (p : Position) (maxDepth : Nat) : M String := do
-  let env := quietEnv lazy
+def searchIters (lazy : Bool) (p : Position) (maxDepth : Nat) (budget : Nat := 0) : M String := do
+  -- budget > 0: the clock oracle fires after that many consultations (about one per searched move), so a
+  -- reference search that is too expensive ends early and is reported as ` | budget` instead of a value
+  let env := if budget == 0 then quietEnv lazy else { quietEnv lazy with timeUp := fun t => t ≥ budget }
   let mut s : SS := { rows := newRows env.pvRows, killers := Killers.empty, nodes := 0, interrupted := false, tick := 0,
                       matched := 0, cand := [], rootMoves := [], firstMoveIdx := 0, out := [] }
   let mut len0 ← rowLen s 0
   let mut out := ""
   for d in [1:maxDepth+1] do
     let (score, one, l0, s') ← startAlphaBeta env 200 p d len0 s
+    if budget != 0 && s'.tick ≥ budget then
+      out := out ++ " | budget"
+      break
     s := copyBestLine s' l0
     len0 := l0
     out := out ++ s!" | d={d} score={score} one={b2i one} pv={pvStr s.cand}"
@@ -298,6 +303,9 @@ def dispatch (f : List String) : String :=
       pure s!"ok perft={fmt pe false} tperft={fmt te true}"
   | ["msearch", fen, d, lz] => withFen fen fun p => do
       let r ← searchIters (lz == "1") p d.toNat!
+      pure ("ok" ++ r)
+  | ["msearch", fen, d, lz, b] => withFen fen fun p => do
+      let r ← searchIters (lz == "1") p d.toNat! b.toNat!
       pure ("ok" ++ r)
   | ["miter", fen, d] => withFen fen fun p => do
       let env := quietEnv true
